@@ -218,6 +218,7 @@ def _judge_case(case, stats):
     M = src.model
     atomic = False
     cursor_moved = False
+    decoys = []
 
     def fail(op, what, detail):
         b = "%s:%s:%s" % (kind, op, what)
@@ -246,6 +247,9 @@ def _judge_case(case, stats):
                 elif not op[1] and atomic:
                     bs.leave_atomic_mode()
                     atomic = False
+                    for d in decoys:
+                        d.leave_atomic_mode()
+                    del decoys[:]
                 continue
             if name == "poke":
                 # memory of the emulator changes between two instructions, never inside one
@@ -269,6 +273,19 @@ def _judge_case(case, stats):
                     continue
                 exp = M.read(a, l)
                 count("op:getbytes:" + ("in" if exp is not None else "out"))
+                if atomic and l > 0:
+                    # another stream object decoding at the same time (its own atomic section, same address and
+                    # length, different content): caches must be per stream
+                    try:
+                        from miasm.core.bin_stream import bin_stream_str as _bss
+                        decoy = _bss(bytes((0xA5 ^ (i & 0xff)) for i in range(min(l, 64) + 8)), base_address=a)
+                        decoy.enter_atomic_mode()
+                        decoy.getbytes(a, min(l, 64))
+                        if l <= 64:
+                            decoys.append(decoy)
+                        count("op:decoy-stream-read")
+                    except Exception:
+                        pass
                 try:
                     got = bs.getbytes(a, l)
                 except IOError:
